@@ -11,7 +11,9 @@ EXPLANATION = (
     "compare-exchange succeeds with >= AcqRel, every load whose result can be dereferenced is >= Acquire; a Relaxed load is "
     "accepted only when its result is used for pointer identity alone; (C17.2) a node is initialised before it is "
     "published: in SkipList::insert the store of the successor into the new node dominates, and lies on every retry cycle "
-    "through, the compare-exchange that links it, and both use the same observed successor; the same for List::prepend; "
+    "through, the compare-exchange that links it, and both use the same observed successor; the levels are linked "
+    "bottom-up (the level index handed to cas_next counts up from 0, so a node reachable at level k has its lower levels "
+    "linked); the same for List::prepend; "
     "(C17.3) raw node pointers are dereferenced only in node_ptr::deref, Box::from_raw of a node appears only in Drop "
     "impls, and the Drop that frees belongs to the last owner (C07.1 rule); (C17.4) listfree iterators are lifetime-bound "
     "to their list (compile-fail witness W1, thorough tier).  Ordering-operand table, ORDER with cycles, who-may-call.")
